@@ -356,4 +356,53 @@ pub fn hb_ot_shape_complex_categorize(
 #[allow(unused_imports, dead_code, missing_docs)]
 pub mod verif_hooks {
     use super::*;
+
+    fn key(s: &hb_ot_shaper_t) -> (usize, usize, u32, bool) {
+        (
+            s.collect_features.map_or(0, |f| f as usize),
+            s.setup_masks.map_or(0, |f| f as usize),
+            s.zero_width_marks as u32,
+            s.fallback_position,
+        )
+    }
+
+    /// Name of a shaper record (identified by its function pointers and flags).
+    pub fn shaper_name(s: &hb_ot_shaper_t) -> &'static str {
+        let k = key(s);
+        let all: [(&'static str, &hb_ot_shaper_t); 12] = [
+            ("default", &DEFAULT_SHAPER),
+            ("dumber", &DUMBER_SHAPER),
+            ("arabic", &crate::hb::ot_shaper_arabic::ARABIC_SHAPER),
+            ("hangul", &crate::hb::ot_shaper_hangul::HANGUL_SHAPER),
+            ("hebrew", &crate::hb::ot_shaper_hebrew::HEBREW_SHAPER),
+            ("indic", &crate::hb::ot_shaper_indic::INDIC_SHAPER),
+            ("khmer", &crate::hb::ot_shaper_khmer::KHMER_SHAPER),
+            ("myanmar", &crate::hb::ot_shaper_myanmar::MYANMAR_SHAPER),
+            ("zawgyi", &crate::hb::ot_shaper_myanmar::MYANMAR_ZAWGYI_SHAPER),
+            ("thai", &crate::hb::ot_shaper_thai::THAI_SHAPER),
+            ("use", &crate::hb::ot_shaper_use::UNIVERSAL_SHAPER),
+            ("?", &DEFAULT_SHAPER),
+        ];
+        for (n, c) in all.iter() {
+            if key(c) == k {
+                return n;
+            }
+        }
+        "?"
+    }
+
+    /// `hb_ot_shape_complex_categorize` by name; direction: 0 = LTR, 1 = RTL, 2 = TTB, 3 = BTT.
+    pub fn categorize(script: u32, direction: u8, gsub_script: Option<u32>) -> &'static str {
+        let d = match direction {
+            0 => Direction::LeftToRight,
+            1 => Direction::RightToLeft,
+            2 => Direction::TopToBottom,
+            _ => Direction::BottomToTop,
+        };
+        shaper_name(hb_ot_shape_complex_categorize(
+            Script(hb_tag_t(script)),
+            d,
+            gsub_script.map(hb_tag_t),
+        ))
+    }
 }
